@@ -140,14 +140,16 @@ pub fn run(opts: &Opts) -> i32 {
                 let end = ans.split(' ').next().unwrap_or("").to_string();
                 sink.count(&format!("corpus_mutant_end_{}", end.split(':').next().unwrap_or("")));
                 if end.starts_with("stuck:") || end.starts_with("panic:") {
-                    sink.violation("c01-accepted-program-stuck", serde_json::json!({"mutant_of": path.display().to_string(), "end": end, "source": text}));
+                    sink.violation("c01-accepted-program-stuck", serde_json::json!({"mutant_of": path.display().to_string(), "end": end, "written_holes": crate::fmt::written_holes(&text), "source": text}));
                 }
             }
         }
     }
     // (1c) hand-written probes for shapes outside ZCore that have gone wrong before (C01's own)
     if !opts.rest.iter().any(|a| a == "--skip-corpus-mutants") {
-        let probes: [(&str, String); 5] = [
+        let probes: [(&str, String); 7] = [
+            ("written-value-hole-evaluated", format!("{}begin\n  let message : String = _ in\n  ! (stdio/write_line) message {{ ! (process/exit) (0 : Int64) }}\nend\n", pipeline::prelude())),
+            ("unknown-annotation-sugar-evaluated", format!("{}begin\n  let message : String = @(message) in\n  ! (stdio/write_line) message {{ ! (process/exit) (0 : Int64) }}\nend\n", pipeline::prelude())),
             ("refutable-constructor-pattern-in-a-let-binder", format!("{}begin\n  let Zb = data | +True : Unit | +False : Unit end that\n  let b = (+False() : Zb) in\n  let +True() = b in\n  ! (process/exit) (0 : Int64)\nend\n", pipeline::prelude())),
             ("refutable-constructor-pattern-in-a-function-binder", format!("{}begin\n  let Zb = data | +True : Unit | +False : Unit end that\n  (fn (+True() : Zb) => ! (process/exit) (0 : Int64)) (+False() : Zb)\nend\n", pipeline::prelude())),
             ("fix-binder-of-a-data-type", format!("{}begin\n  def Zbox (B : CType) : VType = data | +Box : Thk B end that\n  let f = {{ fix (x : Zbox (Ret Int64)) => match x | +Box(t) => ! t end }} that\n  do r <- ! f;\n  ! (process/exit) r\nend\n", pipeline::prelude())),
@@ -162,7 +164,7 @@ pub fn run(opts: &Opts) -> i32 {
             if let Some((_, ans)) = case {
                 let end = ans.split(' ').next().unwrap_or("").to_string();
                 if end.starts_with("stuck:") || end.starts_with("panic:") {
-                    sink.violation("c01-accepted-program-stuck", serde_json::json!({"probe": name, "end": end, "source": text}));
+                    sink.violation("c01-accepted-program-stuck", serde_json::json!({"probe": name, "end": end, "written_holes": crate::fmt::written_holes(&text), "source": text}));
                 }
                 sink.case(&format!("# probe {name}"), &end);
             }
